@@ -255,7 +255,22 @@ def un(name, p):
             if lead > 0 and lead != 1:
                 r = _exact_sqrt(lead)
                 if r is not None:
-                    return opaque("sqrt", p.scale(1 / lead)).scale(r)
+                    return opaque("sqrt", p.scale(Fraction(1) / lead)).scale(r)
+    if name in ("sin", "cos"):
+        # shift identities: strip k*pi/2 from the argument (exact)
+        pia = PI_POLY.single_atom()
+        mono = ((pia, 1),)
+        c = p.t.get(mono)
+        if c is not None and (2 * c) == int(2 * c):
+            k = int(2 * c) % 4
+            rest = p - Poly({mono: c})
+            s_, c_ = un("sin", rest), un("cos", rest)
+            if name == "sin":
+                return (s_, c_, -s_, -c_)[k]
+            return (c_, -s_, -c_, s_)[k]
+    if name == "acos" and _lead_negative(p):
+        # acos(-u) = pi - acos(u)
+        return PI_POLY - opaque("acos", -p)
     if name in ODD and _lead_negative(p):
         return -opaque(name, -p)
     if name in EVEN and _lead_negative(p):
